@@ -13,14 +13,15 @@ for d in sorted(glob.glob(os.path.join(VERIF, 'seeded', 'C*_*'))):
     note = m.get('strengthened', '')
     rows.append((os.path.basename(d), ', '.join(os.path.basename(f) for f in files), changed,
                  'yes' if m.get('demo_on_original_exit') == 0 and m.get('demo_with_change_exit') not in (0, -1) and m.get('repo_tests_pass') else 'NO',
-                 ', '.join(first) or '—', ', '.join(caught) or '—', note))
+                 ', '.join(first) or '—', ', '.join(caught) or '—',
+                 {True: 'yes', False: 'no (broken obligation / correspondence only)', None: '?'}[m.get('caught_with_concrete_input') if caught else None] if caught else '—', note))
 out = ['# Seeded changes', '',
        'Each directory holds `patch.diff`, the demonstration (`demo.cpp`, `build.sh`), `meta.json` (what it needs to manifest = the author\'s notes,',
        'what was run) and, when a check caught it, `example_replay.json`. The changes were written by sub-agents that saw only the property text and a',
        'scratch worktree of the repository. "confirmed" = the demonstration exits 0 on the original and non-zero with the change, and the',
        'repository\'s own tests pass with the change. None of these changes is ever applied to /repo itself (`tools/mutant_eval.py` uses a scratch copy).', '',
-       '| change | files | ±lines | confirmed | caught by (first run, quick tier) | caught by (now) | what was strengthened |', '|---|---|---|---|---|---|---|']
+       '| change | files | ±lines | confirmed | caught by (first run, quick tier) | caught by (now) | concrete failing input | what was strengthened |', '|---|---|---|---|---|---|---|---|']
 for r in rows:
-    out.append('| %s | %s | %d | %s | %s | %s | %s |' % r)
+    out.append('| %s | %s | %d | %s | %s | %s | %s | %s |' % r)
 open(os.path.join(VERIF, 'seeded', 'README.md'), 'w').write('\n'.join(out) + '\n')
-print(len(rows), 'rows;', sum(1 for r in rows if r[5] == '—'), 'not caught now')
+print(len(rows), 'rows;', sum(1 for r in rows if r[5] == '—'), 'not caught now;', sum(1 for r in rows if r[4] == '—'), 'missed at first run;', sum(1 for r in rows if r[6] == 'yes'), 'with concrete input')
